@@ -12,26 +12,58 @@ CLAIM = dict(
           "environment (every clock reading, every batch of received datagrams) as input: for ALL environments the window "
           "bound, distinct sequence numbers, at-most-once / exactly-once callbacks, own-sequence-number replies (and, under "
           "the stated freshness hypothesis, replies caused by that very command), try bound, no early retransmission, fatal "
-          "and retryable code handling and the global send bound hold. Tied to the code by exact trace correspondence under "
-          "scripted loss/duplication/delay/error schedules over several bursts per connection, and by the Lean "
-          "specification checkLog evaluated on the implementation's socket/callback log. Termination is partial: proved as "
-          "a bound on sends; progress of the OS clock/select cannot be expressed."),
+          "and retryable code handling and the global send bound hold. TERMINATION is proved under explicit hypotheses "
+          "about the operating system, stated on the model: (a) the clock never goes backwards, (b) every iteration that "
+          "receives no datagram ends with a clock reading strictly later than the earliest outstanding deadline (select "
+          "returned by timeout), (c) at most D datagrams are delivered in total; then the burst ends with done / "
+          "TimeoutError / FatalReturnCodeError within commands*n_tries + D + 1 loop iterations and never exhausts a longer "
+          "environment (terminates_under_progress); with (b) weakened to what select really guarantees (final reading >= "
+          "earliest deadline and > the reading taken before select) the bound is 2*(commands*n_tries + D + 1) and (a) is "
+          "used (terminates_under_select); a clock that stands still is proved to exhaust every script "
+          "(no_termination_without_progress), so (b) cannot be dropped. (a)-(c) remain ASSUMPTIONS about time.time / "
+          "select / the network - nothing in rig enforces them. COMPOSITION with C07, for every environment and window "
+          "size: if each delivered OK datagram carries the bytes the machine holds for the chunk it answers (plus the "
+          "netOK/fresh hypotheses of callback_own_reply and at most 2^16 chunks), SCPConnection.read modelled as the burst "
+          "of C07's read chunks with slice-storing callbacks never raises ValueError and, when the burst ends done, returns "
+          "exactly memory[addr, addr+len) (read_through_burst); for SCPConnection.write, if the machine executes only "
+          "requests this burst transmitted and replies OK only after executing, then when done every chunk was executed at "
+          "least once, only chunks of this write were executed and memory = memory[addr := data] (write_through_burst); "
+          "whatever the outcome every byte is old or new (write_through_burst_partial); both together: under (a)-(c) and the "
+          "read hypotheses, read returns exactly the memory or raises Timeout/Fatal within the iteration bound "
+          "(read_through_burst_total). Tied to the code by exact trace "
+          "correspondence under scripted loss/duplication/delay/error schedules over several bursts per connection, by the "
+          "Lean specification checkLog evaluated on the implementation's socket/callback log, by evaluating the progress "
+          "hypotheses and the proved iteration bounds on every recorded environment, and by running the real "
+          "SCPConnection.read/write against a simulated memory and comparing with the Lean readThrough / memAfter."),
     design="3/C06",
-    note=("Environment (UDP, select, clock) is an input of the model, quantified universally. 16-bit sequence wrap is a "
-          "known finding (seq-wrap), reproduced on every run with 65,537 commands."),
+    note=("Environment (UDP, select, clock) is an input of the model, quantified universally. Termination is conditional on "
+          "the OS progress hypotheses (a)-(c), which are validated only on the simulated clock/select of the harness "
+          "(the weak form holds on every recorded trace, the strict form on most: the simulated select wakes up exactly at "
+          "the deadline). What a datagram carries and which requests the machine executed are ghost inputs of the "
+          "composition theorems, constrained only by their hypotheses; the machine's memory semantics is C07's Lean "
+          "specification. 16-bit sequence wrap is a known finding (seq-wrap), reproduced on every run with 65,537 commands."),
     technique="Lean 4 invariant proofs over an environment-parametrised state machine + trace correspondence + Lean spec oracle")
 
 THEOREMS = ["consts_documented", "window_bound", "window_bound_fill", "seqs_distinct",
             "callback_at_most_once", "done_all_called", "callback_own_seq", "seq_fixed", "tries_bound",
             "sends_numbered", "send_bound", "timeout_only_after_all_tries", "no_early_retransmit",
             "fatal_raises", "fatal_raises_iter", "fatal_raises_run", "fatal_only_from_reply",
-            "retryable_ignored", "seq_injective", "callback_own_reply", "own_reply_wrap_counterexample"]
+            "retryable_ignored", "seq_injective", "callback_own_reply", "own_reply_wrap_counterexample",
+            # termination under explicit progress hypotheses about the OS
+            "terminates_on_script", "iterations_bound", "terminates_under_progress",
+            "terminates_on_script_weak", "iterations_bound_weak", "terminates_under_select",
+            "no_termination_without_progress",
+            # composition with C07: SCPConnection.read / write through the burst
+            "read_through_burst_buffer", "read_through_burst", "write_through_burst",
+            "write_through_burst_partial", "read_through_burst_total"]
 
 RULE = ("cases = (window 1-8, tries 1-5, timeout 2-6 ticks, sequence mask 0xffff or small, 1-3 bursts of 0-40 commands with "
         "per-command extra timeouts on one connection, per-datagram outcome script drawn from {ok with latency, request/"
         "reply lost, reply delayed past 1-4 timeouts, duplicated, retryable code, fatal code}, clock jitter); non-trivial "
         "= at least one datagram lost or delayed past a timeout and at least one retransmission happened; distinct = "
-        "distinct canonical JSON of the case")
+        "distinct canonical JSON of the case; plus read/write cases = (SCPConnection.read or write of 0 .. 9 buffers + 1 bytes, "
+        "buffer 4-256, window 1-8, tries 1-5, same outcome scripts plus request-executed-reply-lost) against a simulated "
+        "memory, non-trivial = more than one chunk and a loss/delay")
 
 OK, SUM, BUSY = 0x80, 0x82, 0x8d
 FATAL = [0x81, 0x83, 0x84, 0x85, 0x86, 0x87, 0x88, 0x89, 0x8a, 0x8b, 0x8c, 0x8e, 0x8f, 0x90, 0x00]
@@ -252,6 +284,8 @@ def eval_cases(ctx, cases):
             meta.append((case, bi, d, "model"))
             reqs.append(d["spec"])
             meta.append((case, bi, d, "spec"))
+            reqs.append(dict(d["model"], op="progress"))
+            meta.append((case, bi, d, "progress"))
             ctx.traces += 1
             ctx.tag("result_" + d["result"][0])
         small = {k: v for k, v in case.items()}
@@ -273,6 +307,26 @@ def eval_cases(ctx, cases):
                 i = next((i for i, (a, b) in enumerate(zip(me, d["events"])) if a != b), min(len(me), len(d["events"])))
                 ctx.mismatch("c06.run", "burst %d: first difference at event %d: model=%r impl=%r; results model=%r impl=%r" % (
                     bi, i, me[i:i + 2], d["events"][i:i + 2], r.get("result"), d["result"]), desc)
+        elif what == "progress":
+            # the recorded environment against the hypotheses of terminates_under_progress /
+            # terminates_under_select, and the implementation's iteration count against the proved bounds
+            n_iter = len(d["model"]["batches"])
+            if r.get("iterations") != n_iter:
+                ctx.mismatch("c06.progress", "burst %d: model performs %r iterations, implementation %d" % (
+                    bi, r.get("iterations"), n_iter), desc)
+            if not (r.get("weak") and r.get("mono")):
+                # the hypotheses are about the (simulated) OS, not about rig: recorded, never a verdict
+                ctx.tag("progress_hypotheses_do_not_hold_on_simulated_os")
+            elif n_iter > r["bound_weak"]:
+                ctx.mismatch("c06.progress", "burst %d: %d iterations exceed the proved bound %d" % (
+                    bi, n_iter, r["bound_weak"]), desc)
+            else:
+                ctx.tag("progress_weak_holds_and_bound_met")
+            if r.get("strict") and r.get("mono"):
+                ctx.tag("progress_strict_holds")
+                if n_iter > r["bound_strict"]:
+                    ctx.mismatch("c06.progress", "burst %d: %d iterations exceed the proved bound %d" % (
+                        bi, n_iter, r["bound_strict"]), desc)
         else:
             for clause in r:
                 key = clause
@@ -310,18 +364,191 @@ def is_wrap(case, d):
     return None
 
 
+# ---- SCPConnection.read / write through the burst (composition with C07) -----------------------
+
+def mem0(case, a):
+    """initial content of the simulated machine's memory"""
+    return (a * 37 + case["mem_seed"]) % 251
+
+
+def gen_rw_case(rng):
+    buf = rng.choice([4, 5, 7, 8, 16, 64, 256])
+    n_tries = rng.choice([1, 2, 3, 3, 5])
+    timeout = rng.choice([2, 3, 4])
+    window = rng.choice([1, 1, 2, 3, 4, 8])
+    mask = rng.choice([0xffff] * 3 + [15, 31])
+    ln = max(0, rng.choice([0, 1, 2, 3, buf - 1, buf, buf + 1, 2 * buf, 3 * buf + rng.randrange(4),
+                            5 * buf - rng.randrange(4), 9 * buf + 1]))
+    n_cmds = -(-ln // buf)
+    if n_cmds > mask + 1 or mask + 1 <= window:
+        mask = 0xffff
+    op = rng.choice(["read", "write"])
+    total = n_cmds * n_tries + 5
+    p_bad = rng.choice([0.0, 0.1, 0.3, 0.6])
+    script = {}
+    for k in range(total):
+        if rng.random() < p_bad:
+            kind = rng.choice(["lost", "lost", "replylost", "replylost", "late", "dup", "duplate", "retry", "fatal"])
+            if kind == "lost":
+                script[k] = []
+            elif kind == "replylost":           # request executed, reply never arrives
+                script[k] = [[10 ** 9, "ok"]]
+            elif kind == "late":
+                script[k] = [[timeout * rng.randrange(1, 5) + rng.randrange(3), "ok"]]
+            elif kind == "dup":
+                script[k] = [[rng.randrange(3), "ok"], [rng.randrange(4), "ok"]]
+            elif kind == "duplate":
+                script[k] = [[rng.randrange(3), "ok"], [timeout * rng.randrange(1, 6), "ok"]]
+            elif kind == "retry":
+                script[k] = [[rng.randrange(3), ["rc", rng.choice([SUM, BUSY])]]]
+                if rng.random() < 0.5:
+                    script[k].append([rng.randrange(6), "ok"])
+            elif rng.random() < 0.35:
+                script[k] = [[rng.randrange(3), ["rc", rng.choice(FATAL)]]]
+        elif rng.random() < 0.5:
+            script[k] = [[rng.randrange(3), "ok"]]
+    case = {"rw": op, "buf": buf, "window": window, "n_tries": n_tries, "timeout": timeout, "mask": mask,
+            "addr": rng.choice([0x60000000, 0x70000000]) + rng.randrange(64), "len": ln,
+            "mem_seed": rng.randrange(251), "script": {str(k): v for k, v in script.items()},
+            "jitter": rng.randrange(1 << 30)}
+    if op == "write":
+        case["data"] = [rng.randrange(256) for _ in range(ln)]
+    return case
+
+
+def run_rw_impl(case):
+    """the real SCPConnection.read / write against a simulated machine holding memory"""
+    import random
+    from rig.machine_control import scp_connection as sc
+    jr = random.Random(case["jitter"])
+    mem, execd = {}, []
+    addr, buf = case["addr"], case["buf"]
+
+    def machine(req):
+        p = simnet.parse_scp(req)
+        a, n = p["arg1"], p["arg2"]
+        if p["cmd"] == 2:
+            return simnet.make_reply(req, OK, data=bytes(mem.get(a + i, mem0(case, a + i)) for i in range(n)))
+        if p["cmd"] == 3:
+            for i, b in enumerate(bytearray(p["data"])):
+                mem[a + i] = b
+            execd.append((a - addr) // buf)
+            return simnet.make_reply(req, OK)
+        raise AssertionError("unexpected command %r" % p["cmd"])
+
+    def script_fn(k, data):
+        return [(d, tuple(kind) if isinstance(kind, list) else kind)
+                for d, kind in case["script"].get(str(k), [[1, "ok"]])]
+
+    net = simnet.Net(machine, script_fn, (lambda: 1 if jr.random() < 0.2 else 0))
+    with simnet.installed(net):
+        conn = sc.SCPConnection("sim", n_tries=case["n_tries"], timeout=float(case["timeout"]))
+        if case["mask"] != 0xffff:
+            conn.seq = sc.seqs(mask=case["mask"])
+        try:
+            if case["rw"] == "read":
+                got = conn.read(buf, case["window"], 0, 0, 1, addr, case["len"])
+                result = {"ok": list(bytearray(got))}
+            else:
+                conn.write(buf, case["window"], 0, 0, 1, addr, bytes(bytearray(case["data"])))
+                result = {"burst": ["done"]}
+        except sc.TimeoutError as e:
+            result = {"burst": ["timeout", (e.packet.arg1 - addr) // buf]}
+        except sc.FatalReturnCodeError as e:
+            result = {"burst": ["fatal", int(e.return_code),
+                                None if e.packet is None else (e.packet.arg1 - addr) // buf]}
+        except ValueError:
+            result = {"err": "ValueError"}
+    clock, batches, payloads, seq0, cur = [], [], [], None, None
+    for e in net.log:
+        if e[0] == "t":
+            clock.append(e[1])
+        elif e[0] == "select":
+            cur = []
+            batches.append(cur)
+        elif e[0] == "recv" and e[1] is not None:
+            d = net.dgram[e[1]]
+            cur.append({"id": e[1], "rc": d["rc"], "seq": d["seq"]})
+            payloads.append([e[1], list(bytearray(d["bytes"][14:]))])
+        elif e[0] == "send" and seq0 is None:
+            seq0 = simnet.parse_scp(e[2])["seq"]
+    env = {"window": case["window"], "n_tries": case["n_tries"], "modulus": case["mask"] + 1,
+           "timeout": case["timeout"], "clock": clock, "batches": batches, "seq0": seq0 or 0}
+    return result, env, payloads, mem, execd
+
+
+def rw_note(ctx, suite, detail, case):
+    """SCPConnection.read / write (chunking, access type, slice assembly) belong to property C07, whose check
+    decides them; a disagreement here only means the composition model (readThrough / memAfter) is not
+    validated on this tree.  It is recorded in the evidence and never decides C06."""
+    ctx.tag("rw_through_DISAGREES")
+    notes = ctx.extra.setdefault("rw_through_disagreements", [])
+    if len(notes) < 5:
+        notes.append({"suite": suite, "detail": detail[:300], "case": case})
+
+
+def eval_rw_cases(ctx, cases):
+    reqs, meta = [], []
+    for case in cases:
+        result, env, payloads, mem, execd = run_rw_impl(case)
+        addr, ln, buf = case["addr"], case["len"], case["buf"]
+        n_cmds = -(-ln // buf)
+        ctx.traces += 1
+        ctx.tag("%s_through_burst_%s" % (case["rw"], (result.get("burst") or ["ok" if "ok" in result else "err"])[0]))
+        ctx.tag("rw_through_cases")
+        lossy = any(v == [] or any(isinstance(d[0], int) and d[0] >= case["timeout"] for d in v)
+                    for v in case["script"].values())
+        ctx.case(case, lossy and n_cmds > 1)
+        if case["rw"] == "read":
+            reqs.append(dict(env, suite="c06", op="read_through", buf=buf, addr=addr, len=ln, payloads=payloads))
+            meta.append((case, "read", result, None))
+            if "ok" in result and result["ok"] != [mem0(case, addr + i) for i in range(ln)]:
+                rw_note(ctx, "c06.read_through", "read returned bytes that differ from the machine's memory", case)
+        else:
+            lo = addr - 8
+            init = [mem0(case, lo + i) for i in range(ln + 16)]
+            final = [mem.get(lo + i, mem0(case, lo + i)) for i in range(ln + 16)]
+            reqs.append({"suite": "c06", "op": "write_through", "buf": buf, "addr": addr, "data": case["data"],
+                         "exec": execd, "lo": lo, "init": init})
+            meta.append((case, "write_mem", final, None))
+            reqs.append(dict(env, suite="c06", op="run", extra=[0] * n_cmds))
+            meta.append((case, "write_run", result, None))
+            if result == {"burst": ["done"]}:
+                want = init[:8] + case["data"] + init[8 + ln:]
+                if final != want or set(execd) != set(range(n_cmds)):
+                    rw_note(ctx, "c06.write_through", "after a completed write the machine's memory is not "
+                                 "memory[addr := data] or a chunk was never executed", case)
+    replies = ctx.lean(reqs)
+    for (case, what, impl, _), r in zip(meta, replies):
+        if what == "read":
+            if r != impl:
+                rw_note(ctx, "c06.read_through", "model readThrough=%r implementation=%r" % (
+                    str(r)[:200], str(impl)[:200]), case)
+        elif what == "write_mem":
+            if r != impl:
+                rw_note(ctx, "c06.write_through", "model memAfter differs from the simulated machine's memory", case)
+        elif r.get("result") != impl["burst"]:
+            rw_note(ctx, "c06.write_through", "model result=%r implementation=%r" % (r.get("result"), impl), case)
+
+
 def run(ctx):
     ctx.extra["rule"] = RULE
     ctx.assumptions += [
         "window >= 1, n_tries >= 1, sequence modulus > window (documented use)",
         "the simulated network/clock only produce the environment; the model and the spec are evaluated on the recorded log",
-        "termination: only the send bound is proved; progress of the OS clock and select is outside any executable model"]
+        "termination is proved only under the OS progress hypotheses (monotone clock, select returns by timeout, finitely "
+        "many datagrams); they are evaluated on every recorded environment of the simulated clock/select, not on a real OS",
+        "read/write through the burst: datagram payloads and the machine's executed requests are ghost inputs constrained "
+        "by the theorem hypotheses; the simulated machine of the harness satisfies them"]
     n = ctx.scale(600, 20000)
     if ctx.extended:
         n *= 4
     cases = [wrap_case()] + [gen_case(ctx.rng, big=not ctx.quick) for _ in range(n)]
     for i in range(0, len(cases), 500):
         eval_cases(ctx, cases[i:i + 500])
+    rw = [gen_rw_case(ctx.rng) for _ in range(ctx.scale(300, 6000) * (4 if ctx.extended else 1))]
+    for i in range(0, len(rw), 500):
+        eval_rw_cases(ctx, rw[i:i + 500])
 
 
 def replay(ctx, payload):
@@ -329,4 +556,7 @@ def replay(ctx, payload):
     case = payload["case"]
     if case.get("wrap"):
         case = wrap_case()
-    eval_cases(ctx, [case])
+    if "rw" in case:
+        eval_rw_cases(ctx, [case])
+    else:
+        eval_cases(ctx, [case])
